@@ -14,8 +14,18 @@ import (
 
 // C11 — placeholder resolution: substitution, defaults, termination, true cycles only.
 
-// the fixed set of non-overlapping delimiter triples (prefix, suffix, separator)
-var c11Triples = [][3]string{{"${", "}", ":"}, {"#{", "}", "|"}, {"<<", ">>", "::"}, {"%(", ")", "?"}}
+// the fixed set of non-overlapping delimiter triples (prefix, suffix, separator). "Every
+// configured prefix, suffix and separator" includes every combination of LENGTHS: the set has
+// triples with |separator| = |suffix| (1/1, 2/2), |separator| > |suffix| (2/1) and
+// |separator| < |suffix| (1/2), and with |prefix| = / != |suffix|.
+var c11Triples = [][3]string{{"${", "}", ":"}, {"#{", "}", "|"}, {"<<", ">>", "::"}, {"%(", ")", "?"},
+	{"${", "}", ":-"}, {"{{", "}}", "|"}, {"[[", "]]", "=>"}, {"@", "))", "~"}}
+
+// length bound of the exhaustive token stream per triple (quick / thorough)
+var (
+	c11MaxLenQuick    = []int{7, 6, 6, 6, 5, 5, 5, 5}
+	c11MaxLenThorough = []int{9, 8, 7, 7, 7, 7, 6, 6}
+)
 
 type c11Out struct {
 	R string `json:"r"`           // ok | cycle | budget | panic
@@ -45,9 +55,9 @@ const (
 
 func init() {
 	register(&Prop{ID: "C11", Run: c11Run,
-		Rule: "for each delimiter triple of {${ } :, #{ } |, << >> ::, %( ) ?}: (tok) ALL token strings over {prefix,suffix,separator,a,b} up to a length bound against 7 fixed tables (plain, chain, self cycle, mutual cycle, separator-injecting values, unterminated values, key containing the separator); (gram) templates from the grammar text | prefix key-template [sep default-template] suffix (nesting depth <= 4, repetition, unknown keys, unterminated tails, stray suffix/separator) against random tables whose values are templates incl. self and mutual references; (raw) random strings over the delimiter CHARACTERS, lexed by the model; (concat) pairs of delimiter-balanced templates. A batch case is non-trivial when at least one input has a complete placeholder; distinct = distinct canonical case JSON.",
+		Rule: "for each delimiter triple of {${ } :, #{ } |, << >> ::, %( ) ?, ${ } :-, {{ }} |, [[ ]] =>, @ )) ~} (separator shorter than, as long as and longer than the suffix; prefix shorter than, as long as and longer than the suffix): (tok) ALL token strings over {prefix,suffix,separator,a,b} up to a length bound against 7 fixed tables (plain, chain, self cycle, mutual cycle, separator-injecting values, unterminated values, key containing the separator); (gram) templates from the grammar text | prefix key-template [sep default-template] suffix (nesting depth <= 4, repetition, unknown keys, unterminated tails, stray suffix/separator) against random tables whose values are templates incl. self and mutual references; (raw) random strings over the delimiter CHARACTERS, lexed by the model; (concat) pairs of delimiter-balanced templates. A batch case is non-trivial when at least one input has a complete placeholder; distinct = distinct canonical case JSON.",
 		Assumptions: []string{
-			"delimiter triples are the four fixed non-overlapping ones (no character shared by two delimiters of a triple); strings are ASCII",
+			"delimiter triples are the eight fixed non-overlapping ones (no character shared by two delimiters of a triple); strings are ASCII",
 			"the model works on token lists (greedy left-to-right lexing for the triple; the resolved placeholder text is re-lexed before lookup); byte-level = token-level matching is validated by the raw stream (random strings and table values over the delimiter CHARACTERS, incl. partial delimiters), not proved",
 			"the concatenation clause is evaluated for pairs whose concatenation lexes to the concatenation of the lexings (no delimiter forms across the junction)",
 			"termination is observed as: at most 10000 lookups per Resolve call and a 20 s wall-clock backstop per batch",
@@ -409,9 +419,9 @@ func c11Run(c *Ctx) {
 	r := c.Rng
 	// (tok) exhaustive token strings
 	if !c.searchMode {
-		maxLen := []int{7, 6, 6, 6}
+		maxLen := c11MaxLenQuick
 		if c.Thorough() {
-			maxLen = []int{9, 8, 7, 7}
+			maxLen = c11MaxLenThorough
 		}
 		total := 0
 		for ti, d := range c11Triples {
